@@ -318,6 +318,41 @@ def _outcomes(dec, opened, spec, kw, nmax):
     return one, st
 
 
+STREAM_OBJECT_KINDS = ('bytesio', 'file', 'gzip', 'zip', 'bz2', 'lzma', 'buffered-pipe', 'os-pipe', 'simpipe', 'simfile')
+
+
+def _per_message(dec, opened, spec, kw, n):
+    """One decoder per message on the SAME input object (what an application does when successive messages
+    have different types): each decoder yields one object and is dropped; afterwards the caller's stream
+    must still be usable.  Returns ('PERMSG', absvals, end)."""
+    import gc
+    from pyasn1 import error
+    o = opened()
+    items = []
+    end = 'OK'
+    try:
+        try:
+            for _ in range(n):
+                it = iter(dec.StreamingDecoder(o.sub, asn1Spec=spec, **kw))
+                x = next(it)
+                if isinstance(x, error.SubstrateUnderrunError):
+                    items.append('UNDERRUN')
+                    break
+                items.append(U.absval(x))
+                del it, x
+                gc.collect()        # whatever the library attached to the stream object goes away now
+            rest = o.sub.read(1)
+            if rest not in (b'', None):
+                end = 'LEFTOVER'
+        except StopIteration:
+            end = 'STOP'
+        except Exception as ex:
+            end = type(ex).__name__
+    finally:
+        o.close()
+    return ('PERMSG', tuple(items), end)
+
+
 def _exec_a(plan):
     ctr = {}
     trace = []
@@ -350,7 +385,14 @@ def _exec_a(plan):
             got = _outcomes(dec, lambda: open_kind(kind, b, conf.get('bufsize')), spec, kw, nmax)
             trace.append(['kind', kind, got[0][0], got[1][2]])
             ctr['kind.%s' % kind] = ctr.get('kind.%s' % kind, 0) + 1
-            for which, g, w_ in (('one-shot', got[0], ref[0]), ('streaming', got[1], ref[1])):
+            pairs = [('one-shot', got[0], ref[0]), ('streaming', got[1], ref[1])]
+            n_ref = len(ref[1][1])
+            if kind in STREAM_OBJECT_KINDS and ref[1][2] == 'STOP' and n_ref >= 2 and \
+                    all(not isinstance(x, str) for x in ref[1][1]):
+                pm = _per_message(dec, lambda: open_kind(kind, b, conf.get('bufsize')), spec, kw, n_ref)
+                pairs.append(('per-message', pm, ('PERMSG', ref[1][1], 'OK')))
+                ctr['probe.per_message_decoders'] = ctr.get('probe.per_message_decoders', 0) + 1
+            for which, g, w_ in pairs:
                 if 'MemoryError' in (_cls(g), _cls(w_)):
                     # allocation failure on an absurd length depends on the machine, not on pyasn1
                     ctr['probe.memoryerror_not_compared'] = ctr.get('probe.memoryerror_not_compared', 0) + 1
@@ -380,7 +422,7 @@ def _exec_a(plan):
 def _cls(o):
     if o[0] == 'ERR':
         return o[1]
-    if o[0] == 'STREAM':
+    if o[0] in ('STREAM', 'PERMSG'):
         return o[2]
     return 'OK'
 
